@@ -70,6 +70,18 @@ class WrapGreenletPass( BasePass ):
 
       new_constraints.add( (x, y) )
 
+    # The per-constraint metadata is keyed by blocks, too
+    def remap( pair ):
+      return tuple( blk_greenlet_mapping.get( x, x ) for x in pair )
+
+    if hasattr( top._dag, 'value_constraints' ):
+      top._dag.value_constraints = { remap(p) for p in top._dag.value_constraints }
+    if hasattr( top._dag, 'constraint_objs' ):
+      objs = top._dag.constraint_objs
+      for pair in list( objs ):
+        if remap( pair ) != pair:
+          objs[ remap( pair ) ] |= objs.pop( pair )
+
     top._dag.final_upblks    = new_upblks
     top._dag.all_constraints = new_constraints
     top._dag.blk_greenlet_mapping = blk_greenlet_mapping
